@@ -5,6 +5,9 @@ HERE = os.path.dirname(os.path.dirname(os.path.abspath(__file__)))
 ALL = ["C%02d" % i for i in range(1, 21)]
 
 CHECKS = {
+ "C10": dict(cat="exploration", tech="model-based history monitor: every dictionary operation's Klong-level result compared with a Python-dict model driven by the same sequence; alias visibility checked after each update",
+   text="Generated operation sequences (literal, add/overwrite from both sides, find, remove, size, each, alias, literal re-evaluated inside a function) over keys of every hashable kind and values of every kind are executed by the real interpreter and compared step by step with a dictionary model; after every update all aliases are read back. Held on the sequences observed.",
+   note="keys avoid Python-level collisions the reference is silent about (1 vs 1.0, 0cx vs \"x\"); d@k is observed but not judged.", ref="DESIGN.md §4 C10"),
  "C04": dict(cat="exploration", tech="per-statement snapshot oracle (only the assigned variable may change) plus twin re-execution in a fresh interpreter rebuilt from the canonical pre-state",
    text="Generated statement histories (assignments, derived sub-lists, amend / amend-in-depth on numeric, string, symbol and mixed nested lists, function definitions and calls, adverb expressions, repeated texts, module switch, dictionary literal in a function) run in a long-lived interpreter; after every statement the variable snapshot is compared with the pre-state and the statement is re-run in a fresh interpreter that shares no Python object with the first. Held on the histories observed.",
    note="the canonical snapshot plus the function definition texts is taken to be the whole state; dictionary aliasing is C10's subject.", ref="DESIGN.md §4 C04"),
